@@ -1,5 +1,6 @@
 """Checks for the rule-family properties C01, C02, C06, C07 (shared differential run)."""
 import json
+import os
 import random
 import re
 
@@ -170,6 +171,11 @@ INPLACE_TEXTS = [
     "a / b + c / d", "x / 2 + y / 3 - z / 4", "2x - y = 7", "4 - 3x = 2 - y", "(x + 2) * (y + 3)", "2 * (x + 3) * (y + 1)",
     "x * x^2 * x^3", "2x * 3x * 4x", "7 + 2y + 0y", "3x - (2x + y + z)", "4x^2 + 2x^2 + x", "x = 2 + 3 = y",
     "(a + b) + (c + d)", "a * (b * (c * d))", "4 - (3 - x)", "2x + 3 = 7 - x", "1 / x + 2 / x", "6x / 3 + 2",
+    # rewritable nodes directly below a unary operator (negation, function, factorial)
+    "-((2 + 3) * x) + 5 = 9", "-(x + y + z)", "sgn((2 + 3) * x) + 4x + 2x", "-(2x + 3x) + 4", "(2 + 3)! + x + x",
+    "-(4 * (x + 2)) = 8 + 2", "7 - -(2x + y + 3)", "sgn(x * y * z) * 2",
+    # distribution of a multiplier that is itself a product / power (its copy must be a copy)
+    "7x * (y + 1)", "(a * b) * (c + d)", "4x^2 * (y + z)", "(a * b) * (c + d) + z", "(y + 1) * 7x", "2x * (3y + 4z) = 5",
 ]
 
 
@@ -262,19 +268,31 @@ def inplace_walk_case(args):
         # the same step as search agents take it — on a copy cloned from the root of the tree AS IT IS
         # NOW (after the in-place edits so far) — must give what the step gives on a freshly built
         # tree of the current structure: the context of the rewritten node is the current one
-        if rng.random() < 0.25:
+        if rng.random() < 0.5:
             try:
                 fresh_root = core.rebuild(current)
                 want = core.strip_tags(core.to_tuple(core.RULES[rn]().apply_to(core.inorder(fresh_root)[idx]).result.get_root()))
-                got = core.strip_tags(core.to_tuple(core.RULES[rn]().apply_to(node.clone_from_root()).result.get_root()))
-                if not core.tuples_agree(got, want, with_tags=False):
+                try:
+                    got = core.strip_tags(core.to_tuple(core.RULES[rn]().apply_to(node.clone_from_root()).result.get_root()))
+                except Exception as e_:  # noqa  (Unmodelled = a malformed result tree, e.g. a missing operand)
+                    got = ("raised", type(e_).__name__, str(e_)[:80])
+                if got[0] == "raised" or not core.tuples_agree(got, want, with_tags=False):
                     for pr_ in ("C07", "C13"):
                         out["problems"].append({"prop": pr_, "step": step, "rule": rn, "idx": idx, "state": str(current),
-                                                "result_on_clone": core.tuple_str(got), "result_on_fresh_tree": core.tuple_str(want),
+                                                "result_on_clone": str(got) if got[0] == "raised" else core.tuple_str(got),
+                                                "result_on_fresh_tree": core.tuple_str(want),
                                                 "what": "a rewrite applied to clone_from_root of a tree that was edited in place "
                                                         "does not keep the current context (the copy is not the current tree)"})
-            except Exception:  # noqa
-                pass
+            except Exception as e_dbg:  # noqa
+                if os.environ.get("VERIF_DEBUG"):
+                    import traceback
+                    traceback.print_exc()
+        fresh_want = None
+        try:
+            fr_ = core.rebuild(current)
+            fresh_want = core.strip_tags(core.to_tuple(core.RULES[rn]().apply_to(core.inorder(fr_)[idx]).result.get_root()))
+        except Exception:  # noqa
+            fresh_want = None
         expected = None
         if forced is not None:
             # what a rule object without history produces on an identical copy
@@ -304,19 +322,31 @@ def inplace_walk_case(args):
                                     "what": f"reported applicable but apply_to raised {type(e).__name__}: {e}"[:240]})
             break
         probs = core.audit_links(new_root)
+        malformed = bool(probs)
         if probs:
             out["problems"].append({"prop": "C07", "step": step, "rule": rn, "idx": idx, "state": core.tuple_str(before),
                                     "what": "malformed tree after an in-place rewrite", "audit": [str(x) for x in probs[:3]]})
-            out["steps"].append(rec)
-            break
+            n_malformed = sum(1 for p_ in out["problems"] if p_["what"].startswith("malformed tree"))
+            if n_malformed > 2:
+                out["steps"].append(rec)
+                break
+            # the walk goes on (a shared node or a stale parent pointer shows in what the NEXT rule does)
         try:
             after = core.to_tuple(new_root, tags)
-        except core.Unmodelled:
+        except (core.Unmodelled, KeyError, RecursionError):
             rec["unmodelled"] = True
             out["steps"].append(rec)
             break
         rec["after"] = after
         out["steps"].append(rec)
+        # the documented transformation: what the rule does to a freshly built tree of the structure the
+        # live tree had before this step
+        if fresh_want is not None and not core.tuples_agree(core.strip_tags(after), fresh_want, with_tags=False):
+            for pr_ in ("C08", "C06"):
+                out["problems"].append({"prop": pr_, "step": step, "rule": rn, "idx": idx, "state": core.tuple_str(before),
+                                        "result": core.tuple_str(after), "result_on_fresh_tree": core.tuple_str(fresh_want),
+                                        "what": "applied to the live tree (after earlier in-place rewrites) the rule does not "
+                                                "produce what it produces on a freshly built tree of the same structure"})
         if expected is not None and not core.tuples_agree(core.strip_tags(after), expected, with_tags=False):
             for pr_ in ("C06", "C08"):
                 out["problems"].append({"prop": pr_, "step": step, "rule": rn, "idx": idx, "state": core.tuple_str(before),
@@ -355,7 +385,12 @@ def inplace_walk_case(args):
             except Exception as e:  # noqa
                 out["problems"].append({"prop": "C13", "step": step, "node": k, "state": core.tuple_str(after),
                                         "what": f"clone_from_root raised {type(e).__name__} after in-place rewrites: {e}"[:200]})
-        if any(p["step"] == step for p in out["problems"]):
+        # a problem of the copies alone (C13) does not end the walk: the tree itself is fine, and rewrites
+        # applied to such copies are what C07 is about (checked at the next steps)
+        if any(p["step"] == step and p["prop"] != "C13" and not p["what"].startswith("malformed tree")
+               for p in out["problems"]):
+            break
+        if sum(1 for p in out["problems"] if p["prop"] == "C13") > 12:
             break
     return out
 
